@@ -16,7 +16,7 @@ longer applies because a later repair rewrote the code it changes (the duration 
 s = open("/verif/DESIGN.md").read()
 body = intro + tbl + "\n"
 if "## 13. Seeded changes" in s:
-    s = re.sub(r"## 13\. Seeded changes.*?(?=\n## 14\. )", body.rstrip("\n") + "\n", s, flags=re.S)
+    s = re.sub(r"## 13\. Seeded changes.*?(?=\n## 14\. )", lambda _m: body.rstrip("\n") + "\n", s, flags=re.S)
 else:
     s = s.replace("\n## 14. Second round", "\n" + body + "## 14. Second round", 1)
 open("/verif/DESIGN.md", "w").write(s)
